@@ -926,26 +926,22 @@ class ProtobufReader(Converter):
         lifted_problem: unified_planning.model.Problem,
     ) -> unified_planning.engines.CompilerResult:
         problem = self.convert(result.problem, lifted_problem.environment)
-        map: Dict[
-            unified_planning.model.Action,
-            Tuple[unified_planning.model.Action, List[unified_planning.model.FNode]],
-        ] = {}
-        for grounded_action in problem.actions:
-            original_action_instance = self.convert(
-                result.map_back_plan[grounded_action.name], lifted_problem
-            )[1]
-            map[grounded_action] = (
-                original_action_instance.action,
-                original_action_instance.actual_parameters,
-            )
+        # the writer stores one entry per ground instance of every compiled action,
+        # keyed by the textual form of that instance
+        map: Dict[str, ActionInstance] = {}
+        for compiled_instance, original_instance in result.map_back_plan.items():
+            map[compiled_instance] = self.convert(original_instance, lifted_problem)[1]
+
+        def map_back_action_instance(action_instance: ActionInstance) -> ActionInstance:
+            original = map[str(action_instance)]
+            return ActionInstance(original.action, original.actual_parameters)
+
         engine_metrics = None
         if bool(result.metrics):
             engine_metrics = dict(result.metrics)
         return unified_planning.engines.CompilerResult(
             problem=problem,
-            map_back_action_instance=partial(
-                unified_planning.engines.compilers.utils.lift_action_instance, map=map
-            ),
+            map_back_action_instance=map_back_action_instance,
             engine_name=result.engine.name,
             metrics=engine_metrics,
             log_messages=[self.convert(log) for log in result.log_messages],
